@@ -27,7 +27,7 @@ import (
 
 // Mut is one mutation of a well-formed stream.
 type Mut struct {
-	Kind  string // truncate | field | type | trailing | insert | grow_with_junk | none
+	Kind  string // truncate | field | type | trailing | insert | grow_with_junk | size_lie | none
 	List  int    // which list (mod number of lists)
 	Field int    // 0 ListSize, 1 HeaderSize, 2 SignatureSize
 	Value uint32 // new field value (kind field)
@@ -46,6 +46,22 @@ var otherTypes = []guid.G{esl.SHA1, esl.SHA384, esl.SHA512, esl.RSA2048}
 
 func genMut(t *rapid.T, stream []byte, lists []esl.List) Mut {
 	m := Mut{List: rapid.IntRange(0, 7).Draw(t, "list")}
+	if rapid.IntRange(0, 11).Draw(t, "sizelie") == 0 {
+		// one list replaced by a list whose size fields are consistent with each other (ListSize = 28 + n x
+		// SignatureSize, computed in 32 bits) but not with the type or with the data that follows: a signature size
+		// near 2^32 with only an owner GUID behind the header, or the right size plus a multiple of 65536 with all the
+		// bytes present. Arithmetic in a narrower type, or rounding before reading, turns these into something else.
+		m.Kind = "size_lie"
+		m.Value = rapid.SampledFrom([]uint32{0xffffffe3, 0xffffffe0, 0xfffff011, 0xfffff800, 0xffff0000, 0x80000010, 48 + 65536, 48 + 2*65536, 17 + 65536, 16 + 65536, 0x10030, 48 + 256, 48 + 512}).Draw(t, "liesize")
+		n := uint32(rapid.IntRange(1, 2).Draw(t, "liecount"))
+		m.Cut = int(n)
+		if uint64(m.Value)*uint64(n) <= 300000 && rapid.Bool().Draw(t, "bytes_present") {
+			m.Tail = gen.FillBytes(t, int(m.Value*n))
+		} else {
+			m.Tail = gen.FillBytes(t, rapid.SampledFrom([]int{16, 16, 17, 48, 64}).Draw(t, "present"))
+		}
+		return m
+	}
 	switch rapid.IntRange(0, 9).Draw(t, "kind") {
 	case 0, 1, 2:
 		m.Kind = "truncate"
@@ -147,6 +163,27 @@ func apply(stream []byte, muts []Mut) []byte {
 				o := offs[m.List%len(offs)]
 				if o+16 <= len(out) {
 					copy(out[o:], m.Type)
+				}
+			}
+		case "size_lie":
+			if len(offs) > 0 {
+				k := m.List % len(offs)
+				o := offs[k]
+				if o+28 <= len(out) {
+					oldSize := int(binary.LittleEndian.Uint32(out[o+16:]))
+					end := o + oldSize
+					if oldSize < 28 || end > len(out) {
+						end = len(out)
+					}
+					repl := append([]byte{}, out[o:o+16]...) // keep the type
+					repl = binary.LittleEndian.AppendUint32(repl, 28+uint32(m.Cut)*m.Value)
+					repl = binary.LittleEndian.AppendUint32(repl, 0)
+					repl = binary.LittleEndian.AppendUint32(repl, m.Value)
+					repl = append(repl, m.Tail...)
+					out = append(out[:o:o], append(repl, out[end:]...)...)
+					for j := k + 1; j < len(offs); j++ {
+						offs[j] += len(repl) - (end - o)
+					}
 				}
 			}
 		case "trailing":
